@@ -10,6 +10,7 @@ import (
 	"sort"
 
 	"google.golang.org/protobuf/encoding/protowire"
+	"google.golang.org/protobuf/internal/verifhook"
 	piface "google.golang.org/protobuf/runtime/protoiface"
 )
 
@@ -305,7 +306,13 @@ func (lazy *XXX_lazyUnmarshalInfo) FindFieldInProto(fieldNum uint32) (start, end
 		// There is no backing protobuf for this message -- it was made from a builder
 		return 0, 0, false, false, nil
 	}
+	if verifhook.Enabled {
+		verifhook.Ev(verifhook.IndexBeforeLoad, uintptr(fieldNum), 0, 0)
+	}
 	index := atomicLoadIndex(&lazy.index)
+	if verifhook.Enabled {
+		verifhook.Ev(verifhook.IndexAfterLoad, v2u(index == nil), 0, 0)
+	}
 	if index == nil {
 		r, err := buildIndex(lazy.Protobuf)
 		if err != nil {
@@ -313,9 +320,23 @@ func (lazy *XXX_lazyUnmarshalInfo) FindFieldInProto(fieldNum uint32) (start, end
 		}
 		// lazy.index is a pointer to the slice returned by BuildIndex
 		index = &r
+		if verifhook.Enabled {
+			verifhook.Ev(verifhook.IndexBeforeStore, uintptr(len(r)), 0, 0)
+		}
 		atomicStoreIndex(&lazy.index, index)
+		if verifhook.Enabled {
+			verifhook.Ev(verifhook.IndexAfterStore, uintptr(len(r)), 0, 0)
+		}
 	}
 	return lookupField(index, fieldNum)
+}
+
+// v2u converts a bool for verifhook observations.
+func v2u(b bool) uintptr {
+	if b {
+		return 1
+	}
+	return 0
 }
 
 // lookupField returns the offset at which the indicated field starts using
